@@ -204,6 +204,24 @@ type fxEvent struct {
 	in    ssa.Instruction
 }
 
+// stackLocal: the address is a field path into an Alloc that lives on the stack.
+func stackLocal(addr ssa.Value) bool {
+	for i := 0; i < 8; i++ {
+		switch x := addr.(type) {
+		case *ssa.FieldAddr:
+			addr = x.X
+			continue
+		case *ssa.IndexAddr:
+			addr = x.X
+			continue
+		case *ssa.Alloc:
+			return !x.Heap
+		}
+		break
+	}
+	return false
+}
+
 // events of one function in instruction order per block.
 func (fx *FX) events(f *ssa.Function) map[*ssa.BasicBlock][]fxEvent {
 	out := map[*ssa.BasicBlock][]fxEvent{}
@@ -214,6 +232,9 @@ func (fx *FX) events(f *ssa.Function) map[*ssa.BasicBlock][]fxEvent {
 			case *ssa.UnOp:
 				if x.Op == token.MUL {
 					if fa, ok := x.X.(*ssa.FieldAddr); ok {
+						if stackLocal(fa) {
+							continue // a field of a local on the stack is not state of the reusable object
+						}
 						if idx, ok := fx.index[fieldOf(fa)]; ok {
 							if _, isSlice := x.Type().Underlying().(*types.Slice); isSlice && capacityOnly(x) {
 								continue
@@ -229,6 +250,9 @@ func (fx *FX) events(f *ssa.Function) map[*ssa.BasicBlock][]fxEvent {
 				}
 			case *ssa.Store:
 				if fa, ok := x.Addr.(*ssa.FieldAddr); ok {
+					if stackLocal(fa) {
+						continue
+					}
 					if idx, ok := fx.index[fieldOf(fa)]; ok {
 						evs = append(evs, fxEvent{kind: 1, field: idx, extra: fx.leavesOf(fieldOf(fa).Type(), 0), in: in})
 					}
@@ -243,7 +267,13 @@ func (fx *FX) events(f *ssa.Function) map[*ssa.BasicBlock][]fxEvent {
 					}
 				}
 			case *ssa.Alloc:
-				// fresh object: all its fields hold the zero value — credited as written
+				// fresh object: all its fields hold the zero value — credited as written. Only for heap objects (which
+				// may become, or be part of, the reusable object): the abstraction has one object per struct type, and a
+				// local of the same type on the stack (a by-value parameter, a temporary) must not hide a read of the
+				// persistent one
+				if !x.Heap {
+					continue
+				}
 				if l := fx.leavesOf(deref(x.Type()), 0); len(l) > 0 {
 					evs = append(evs, fxEvent{kind: 1, field: l[0], extra: l, in: in})
 				}
